@@ -48,6 +48,7 @@ WORKLOADS = {
     "stream": ("w_stream.cpp", ()),
     "any_object": ("w_erase.cpp", ()),
     "any_unique": ("w_erase.cpp", ()),
+    "coro": ("w_coro.cpp", ()),
 }
 
 PROPS = {
@@ -337,5 +338,47 @@ PROPS = {
                     "the poisoned arena and replay/shrinking. Not driven: any_ref, any_scheduler/any_scheduler_ref equality, swap."),
         real=["basic_any_object (inline and heap storage, invalid_obj parking)", "any_unique", "any_sender_of<> (+inplace_stop_token_adapter_subscription)", "type_erased_stream"],
         stub=["tracked wrapped types", "heap with injected bad_alloc (usim arena)"],
+    ),
+    "C10": dict(
+        title="Coroutine tasks map sender results faithfully and always run their cleanup",
+        batches=[
+            B("w_coro.cpp", "coro", quick=14, thorough=240, oracles=["c10.", "c01.", "c02."] + RT_ALL),
+            B("w_coro.cpp", "coro", cfg="S20r", quick=6, thorough=90, oracles=["c10.", "c01.", "c02."] + RT_ALL),
+        ],
+        level_text=("Seeded coroutine-interpreter runs (C++20): a recursive task<long> executes a drawn plan of up to 4 nested tasks x 5 steps: "
+                    "co_await of scripted gates (value/error/done; inline or completed by a foreign opener thread; honouring stop or not), nested "
+                    "tasks, co_await schedule(ctx) onto one of two single_thread_contexts, thrown exceptions, co_await just_done(), optional "
+                    "try/catch around a step, 0-3 at_coroutine_exit actions per task and two tracked locals; the root task runs through "
+                    "on(scheduler, task) under a stoppable receiver with a stop request before start or when a chosen gate is suspended (half of "
+                    "those gates can only be completed by the stop request, so a request that never reaches the awaited sender is a deadlock). "
+                    "Oracles: the receiver's value / error / done equals a reference interpretation of the plan over what the gates delivered "
+                    "(done allowed after a stop request), exit actions run exactly once per entered task, in reverse registration order and "
+                    "before the receiver is completed, every local is destroyed, no task body is entered twice, coroutine frames are arena "
+                    "blocks (leak / double free / touch-after-free), deadlock detection."),
+        level_note=("Trusted: usim stubs, gcc 12 coroutine code generation. Not driven: awaitable<->sender round trips of foreign awaitables "
+                    "(connect_awaitable/as_sender), nothrow_task, sa_task."),
+        real=["task<T> (promise, sr-thunk, await_transform, with_scheduler_affinity, unhandled_done)", "at_coroutine_exit", "on, schedule on single_thread_context", "inplace_stop_source"],
+        stub=["harness gates", "pthread layer, heap (usim)"],
+    ),
+    "C11": dict(
+        title="Completions happen on the promised context",
+        batches=[
+            B("w_coro.cpp", "coro", quick=10, thorough=150, oracles=["c11."]),
+            B("w_expr.cpp", "expr", quick=8, thorough=120, params="faults=0", oracles=["c11."]),
+            B("w_mutex.cpp", "mutex_v2", quick=5, thorough=60, oracles=["c11."]),
+            B("w_event.cpp", "event_v2", quick=4, thorough=60, oracles=["c16.context"]),
+            B("w_event.cpp", "event_v1", quick=4, thorough=60, oracles=["c16.context"]),
+            B("w_event.cpp", "pass", quick=4, thorough=60, oracles=["c16.context"]),
+        ],
+        level_text=("Context oracles evaluated on the executions of five workloads, with gates/leaves completed by foreign threads: inside "
+                    "task<> the thread after every co_await (gate, nested task, schedule) is the thread of the task's current scheduler, which "
+                    "changes only at co_await schedule(s), and the task completes on its scheduler; via(ctx) delivers on the scheduler's "
+                    "thread; v2 async_mutex, v1/v2 async_manual_reset_event and async_pass value completions arrive on the waiter's "
+                    "scheduler thread even when set/unlock/accept happen on another thread."),
+        level_note=("Not decided: the static-trait clauses (blocking always_inline / always, sends_done=false) are only checked where a "
+                    "workload happens to assert them (reduce_stream never done); there is no trait-vs-behaviour matrix; on() start context "
+                    "is implied by the C12 scheduler query oracle only; typed_via and with_scheduler_affinity outside task<> are not driven."),
+        real=["task<> scheduler affinity", "via", "v2 async_mutex, v1/v2 events, async_pass completion hops"],
+        stub=["pthread layer (usim)"],
     ),
 }
